@@ -166,6 +166,15 @@ func module(n Node) *Module {
 	return m
 }
 
+// belongingModule returns the module that the submodule m belongs to, or nil
+// if m is not a submodule or that module is not loaded.
+func belongingModule(m *Module) *Module {
+	if m == nil || m.BelongsTo == nil || m.Modules == nil {
+		return nil
+	}
+	return m.Modules.Modules[m.BelongsTo.Name]
+}
+
 // NodePath returns the full path of the node from the module name.
 func NodePath(n Node) string {
 	var path string
